@@ -321,8 +321,113 @@ def nprime_rule_cases(ctx):
     return cases
 
 
+BOUNDARIES = {
+    "fnpoints.py:71-79 default = max s - 1; opt_params None / key None / N' = max(N, default)":
+        "for N = 1, 2, 3, 5: max s = N-1, N, N+1, N+2 (default N-2 < N, N-1 < N, = N, N+1 > N), the same points with N omitted "
+        "(where max s != 1: N' = 0 is the note F-C18-1) and with {} / {'n_output_values': None}",
+    "fnpoints.py:102 list(enumerate(self.params))[::-1], :155 idx_p / (idx_p + 1)":
+        "m = 1, 2, 3, 2^n - 1, 2^n for n = 2..5 (6 sparse); ascending, descending and shuffled lists incl. n = 4, 5 full sets",
+    "fnpoints.py:106-108 bits_z0[j] != k (move of the flag from the previous point)":
+        "all-zeros point first / last in the list (no CX at all for the point processed first), all-ones point first / last, "
+        "neighbours in the list differing in exactly one bit k (every k) and in every bit",
+    "fnpoints.py:160 lamb = -s * 2 pi / N'": "all s = 0 (N = 1, 2, 7, omitted: N' = -1), all s = N - 1, s = 0 and s = N - 1 together, s = N",
+    "fnpoints.py:124 range(2, n), :133 reg_g[n - 2], :135 range(n - 1, 1, -1), bits_z[k] == 0, _flipflop01 bits 0 / 1":
+        "n = 2 (empty ladder loop), 3 (one step), 4, 5, 6; two stored points differing in exactly bit k for every k = 0..n-1 in "
+        "both list orders (a control dropped or an X sandwich missing at index k makes the ladder match the neighbour), every "
+        "single point for n = 4, single-one / single-zero points for n = 5",
+}
+
+
+def bcase(ctx, keys, svals, N, name, dense=True):
+    """one boundary case: tie + oracle (opt_params None when N is None: entry_case does both)"""
+    ctx.count("boundary:" + name)
+    if N is None:
+        entry_case(ctx, keys, svals, None, "plain", list(range(2 * len(keys[0]) + 1)))
+    else:
+        tie_case(ctx, keys, svals, N)
+        oracle_case(ctx, keys, svals, N, "bv", dense=dense)
+
+
+def boundary_cases(ctx):
+    r = ctx.rng
+    # ---- A: N' = max(N, max s - 1) around both max s - 1 and max s
+    for n in (2, 3):
+        for N in (1, 2, 3, 5):
+            for dm, rel in ((-1, "N-1"), (0, "N"), (1, "N+1"), (2, "N+2")):
+                top = N + dm
+                m = r.randint(2, 2 ** n)
+                keys = r.sample(all_keys(n), m)
+                svals = [r.randint(0, top) for _ in keys]
+                i = r.randrange(m)
+                svals[i] = top
+                svals[(i + 1 + r.randrange(m - 1)) % m] = 0
+                bcase(ctx, keys, svals, N, f"N' rule: max s = {rel} (N given)")
+                if top != 1:
+                    bcase(ctx, keys, svals, None, f"N' rule: N omitted, max s = {top}")
+                    if n == 2:
+                        form = r.choice(["empty", "none-key"])
+                        entry_case(ctx, keys, svals, None, form, list(range(2 * n + 1)))
+    # ---- B: extreme outputs
+    for n in (2, 3, 4):
+        ks = all_keys(n)
+        for N in (1, 2, 7, None):
+            keys = r.sample(ks, r.randint(2, 2 ** n))
+            bcase(ctx, keys, [0] * len(keys), N, "all outputs 0")
+        for N in (2, 3, 8):
+            keys = r.sample(ks, r.randint(2, 2 ** n))
+            bcase(ctx, keys, [N - 1] * len(keys), N, "all outputs N-1")
+            sv = [r.choice([0, N - 1]) for _ in keys]
+            sv[0], sv[-1] = 0, N - 1
+            bcase(ctx, keys, sv, N, "outputs 0 and N-1 together")
+            sv = sv[::-1]
+            bcase(ctx, keys, sv, N, "outputs 0 and N-1 together")
+    # ---- C: list orders and the all-zeros / all-ones point at both ends, n = 4, 5 dense, 6 sparse
+    for n in (4, 5, 6):
+        ks = all_keys(n)
+        dense = n <= 5
+        zero, one = "0" * n, "1" * n
+        if n <= 5:
+            for name, keys in (("full set ascending", ks), ("full set descending", ks[::-1]),
+                               ("2^n-1 points ascending, all-zeros missing", ks[1:]),
+                               ("2^n-1 points descending, all-ones missing", ks[-2::-1])):
+                N = r.choice([2, 3, len(keys)])
+                bcase(ctx, keys, [r.randrange(N) for _ in keys], N, name, dense)
+        mid = [k for k in r.sample(ks[1:-1], 3)]
+        for name, keys in (("all-zeros point first", [zero] + mid), ("all-zeros point last", mid + [zero]),
+                           ("all-ones point first", [one] + mid), ("all-ones point last", mid + [one]),
+                           ("all-zeros first, all-ones last", [zero] + mid[:1] + [one]),
+                           ("all-ones then all-zeros (every bit moves)", [one, zero]),
+                           ("all-zeros then all-ones (every bit moves)", [zero, one])):
+            N = r.choice([2, 3, 5])
+            sv = [r.randrange(N) for _ in keys]
+            sv[0] = N - 1
+            bcase(ctx, keys, sv, N, name, dense)
+    # ---- D: ladder controls: two stored points differing in exactly bit k, both orders
+    for n in (2, 3, 4, 5, 6):
+        ks = all_keys(n)
+        dense = n <= 5
+        bases = ["0" * n, "1" * n, r.choice(ks)]
+        for k in (range(n) if n <= 5 else (0, 1, 2, n - 1)):
+            for b in (bases if n <= 4 else bases[1:] if k % 2 else bases[:1] + bases[2:]):
+                nb = b[:k] + ("1" if b[k] == "0" else "0") + b[k + 1:]
+                for keys in ([b, nb], [nb, b]):
+                    bcase(ctx, keys, [0, 1], 2, f"two points differing in exactly one bit (n={n})", dense)
+        b = r.choice(ks)
+        nbs = [b[:k] + ("1" if b[k] == "0" else "0") + b[k + 1:] for k in range(n)]
+        keys = [b] + nbs
+        r.shuffle(keys)
+        bcase(ctx, keys, list(range(len(keys))), len(keys), f"a point and all its n one-bit neighbours (n={n})", dense)
+    # ---- E: m = 1 for every point (n = 4), single-one / single-zero points (n = 5)
+    for k in all_keys(4):
+        bcase(ctx, [k], [r.randrange(3)], 3, "m = 1, every point of n = 4")
+    for j in range(5):
+        for k in ("0" * j + "1" + "0" * (4 - j), "1" * j + "0" + "1" * (4 - j)):
+            bcase(ctx, [k], [1], 2, "m = 1, single-one / single-zero point of n = 5")
+
+
 def run(ctx, tie_nmax=None, or_nmax=None, sparse_nmax=None):
     gate_conventions(ctx)
+    boundary_cases(ctx)
     r = ctx.rng
     quick = ctx.quick
     # ---- tie: every subset for n <= 3
